@@ -13,7 +13,8 @@ NAMESPACE = 'KdVerif.C06'
 TRUSTED = ['Model/Reader + Model/Construct + Model/ContainerV2/V3 as models of BytesIO / construct / kd_buf_parser.py, tied by '
            'running EVERY cut offset of a corpus of generated v2 and v3 dumps (thorough) / a stratified subset (quick) through '
            'the real parser under a counting reader: outcome kind, number and checksum of events, read calls, bytes returned and '
-           'bytes requested must all agree with the model',
+           'bytes requested must all agree with the model; dumps longer than the reader\'s blocks, cut at the block edges (trunc-blocks, sizes '
+           'from tools/kdv/readprobe.py), are judged on the code alone',
            'Model/Pipeline (filter/map stages, print_with_count) tied by sections pipeline and pwc',
            'from_kd_buf rejects anything but 64 bytes (C01.decode_rejects_other_lengths)']
 ASSUMPTIONS = ['bytes objects hold values 0..255',
